@@ -122,16 +122,18 @@ class Check:
             sub.__dict__.update(self.corp.__dict__)
             sub.constexpr_entries = [e for e in self.corp.constexpr_entries if e.get("n", 0) in c["sweep_n"]]
             self.sweep = gen.c10_sweep_specs(sub, counts)
-            specs = list(self.sweep)
+            specs = list(self.sweep) + gen.c10_directed_specs(self.corp, self.hash_seeds)
             if c["typing_all"]:
                 specs += gen.c10_typing_all_specs(self.corp)
             specs += [gen.c10_random_spec(self.seed, k, self.corp, self.hash_seeds) for k in range(c["random"])]
             return specs
         if p == "C11":
-            return ([gen.c11_spec(self.seed, k, self.corp, self.hash_seeds, soak=True) for k in range(c["soak"])]
+            return (gen.c11_directed_specs(self.corp, self.hash_seeds)
+                    + [gen.c11_spec(self.seed, k, self.corp, self.hash_seeds, soak=True) for k in range(c["soak"])]
                     + [gen.c11_spec(self.seed, k, self.corp, self.hash_seeds) for k in range(c["runs"])])
         if p == "C14":
-            return ([gen.c14_spec(self.seed, k, self.corp, self.hash_seeds, soak=True) for k in range(c["soak"])]
+            return (gen.c14_directed_specs(self.corp, self.hash_seeds)
+                    + [gen.c14_spec(self.seed, k, self.corp, self.hash_seeds, soak=True) for k in range(c["soak"])]
                     + [gen.c14_spec(self.seed, k, self.corp, self.hash_seeds) for k in range(c["runs"])])
         raise SystemExit("unknown property %s" % p)
 
